@@ -342,6 +342,9 @@ func (w *Witness) Update(pk *gabikeys.PublicKey, update *Update) error {
 
 // Verify the witness against its SignedAccumulator.
 func (w *Witness) Verify(pk *gabikeys.PublicKey) error {
+	if w.U == nil || w.E == nil || w.SignedAccumulator == nil {
+		return errors.New("incomplete witness")
+	}
 	_, err := w.SignedAccumulator.UnmarshalVerify(pk)
 	if err != nil {
 		return err
